@@ -146,6 +146,10 @@ func (c03) Generate(r *core.Rng, run int, tier string) *core.History {
 			texts = append(texts, fmt.Sprintf("msg = \"%s %d\"", stem, a), fmt.Sprintf("msg = \"%s %d\"", stem, b))
 		}
 	}
+	if r.Bool(.25) {
+		// a string literal holding a raw byte that is not valid UTF-8 (Latin-1 source): printed as \xNN, which must read back as that byte
+		texts = append(texts, core.Pick(r, []string{"cafe9 = \"caf\u2400E9\"", "println(\"\u2400FF\u2400E9 x\", len(\"\u2400FF\"))", "m9 = {\"k\u2400E9\": 1}"}))
+	}
 	nEv := 6 + r.Intn(14)
 	for i := 0; i < nEv; i++ {
 		t := r.Intn(len(texts))
@@ -161,6 +165,12 @@ func (c03) Generate(r *core.Rng, run int, tier string) *core.History {
 		}
 	}
 	return h
+}
+
+// c03Raw turns the JSON-safe markers "\u2400E9" / "\u2400FF" of a history text into the raw bytes 0xE9 / 0xFF
+// (invalid UTF-8 inside a string literal of the source; raw bytes would not survive the JSON history file).
+func c03Raw(s string) string {
+	return strings.NewReplacer("\u2400E9", "\xe9", "\u2400FF", "\xff").Replace(s)
 }
 
 type c03Item struct {
@@ -182,7 +192,7 @@ func c03Worker(args []string) int {
 	}
 	s := world.NewSession(world.SessCfg{})
 	for i := len(items) - 1; i >= 0; i-- {
-		out, errs, _ := s.Format(items[i].Text, items[i].Compact)
+		out, errs, _ := s.Format(c03Raw(items[i].Text), items[i].Compact)
 		items[i].Out, items[i].Errs = out, len(errs)
 	}
 	_ = json.NewEncoder(os.Stdout).Encode(items)
@@ -209,7 +219,7 @@ func (c03) Execute(h *core.History) *core.Outcome {
 	evals := 0
 	check := func(i int, text string, compact bool, depth int) string {
 		key := fmt.Sprintf("%v|%s", compact, text)
-		out, errs, pan := s.Format(text, compact)
+		out, errs, pan := s.Format(c03Raw(text), compact)
 		if pan || len(errs) > 0 {
 			if depth > 0 {
 				fail(i, "formatted-output-parses", fmt.Sprintf("formatter output (compact=%v) is rejected by the parser: %v\n%q", compact, truncAll(errs), trunc(text, 400)))
@@ -237,7 +247,7 @@ func (c03) Execute(h *core.History) *core.Outcome {
 		e := &h.Events[i]
 		switch e.Ev {
 		case "input":
-			r := s.Input(e.Text, nil)
+			r := s.Input(c03Raw(e.Text), nil)
 			evals++
 			shape = append(shape, "input:"+r.Class)
 		case "format":
